@@ -28,6 +28,14 @@ def run(ctx, chk):
     chk.rule("K3", "worker: eventfd consumed (gate true) => backend.handle_event is called on that path")
     chk.rule("K4", "gate check and dispatch are inside one critical section shared with the control path")
     run_on(fb, chk)
+    # the sequential half of the property: a stop/disable transition leaves the ring unregistered and the gate false,
+    # and a wake-up is consumed only when it is going to be dispatched (rules T1, T2, T4 of C11)
+    from vlint.report import Renamed
+    from . import c11
+    chk.rule("K5", "stop/disable handlers perform the prescribed state change for every ring concerned (C11/T1)")
+    chk.rule("K6", "every stop/disable is followed by the epoll update; a kick descriptor is unregistered before it is dropped (C11/T2)")
+    chk.rule("K7", "the kick eventfd is consumed only on paths where the gate is true (C11/T4)")
+    c11.run_on(fb, Renamed(chk, {"T1": "K5", "T2": "K6", "T4": ("K7", lambda k: "consume-only-when-active" in k)}))
     n = lambda r: len([i for i in chk.instances if i[0] == r])
     chk.floor("K1", n("K1"), 2)
     chk.floor("K2", n("K2"), 4)
